@@ -82,6 +82,7 @@ Example C12_dir_shapes :
   /\ go_dir [97;47;47;98;47;46;46;47;115] = [97]                             (* "a//b/../s" -> "a" *)
   /\ go_dir [46;46;47;120;47;115] = [46;46;47;120].                          (* "../x/s" -> "../x" *)
 Proof. vm_compute. repeat split. Qed.
+Print Assumptions C12_dir_shapes.
 
 (* Histories with crashes, restarts, client starts, the caller scribbling over its own copies
    (OScribble) AND changes made by another writer while the loader lives on (OTear: the file is left
@@ -227,6 +228,7 @@ Example C12_salt_examples :
   /\ salt_dec [0;0;0;0;0;0;0;128] = Ok (-9223372036854775808)%Z
   /\ salt_dec [1;2;3] = Panic.
 Proof. vm_compute. repeat split. Qed.
+Print Assumptions C12_salt_examples.
 
 (* The session codec on its own: what Store writes, Load parses back - any key and hash bytes,
    any int64 salt, any valid UTF-8 host name. *)
@@ -271,6 +273,7 @@ Example C12_coerce_examples :
   /\ coerce_utf8 [208; 191; 240; 159; 166; 138] = [208; 191; 240; 159; 166; 138]      (* valid: unchanged *)
   /\ json_go_ok toy_go_marshal toy_unmarshal.                                         (* json_go_ok is satisfiable *)
 Proof. repeat split; try (vm_compute; reflexivity); apply toy_go_json_ok. Qed.
+Print Assumptions C12_coerce_examples.
 
 (* The executable base64 used in the model runs satisfies what is assumed of base64. *)
 Theorem C12_base64_model : base64_ok b64_encode b64_decode.
@@ -281,6 +284,7 @@ Print Assumptions C12_base64_model.
 Example C12_hypotheses_satisfiable :
   base64_ok b64_encode b64_decode /\ json_ok toy_marshal toy_unmarshal.
 Proof. split; [exact base64_model_ok|exact toy_json_ok]. Qed.
+Print Assumptions C12_hypotheses_satisfiable.
 
 (* Restart: FULL statement of the property - "a client started on a store that holds a session
    resumes with that key, salt and address without a new key exchange" - needs the client
@@ -321,3 +325,4 @@ Example C12_cache_needs_invalidation :
        [OStore sA 5; OLoad; OStore sB 5; OLoad]
      = [ObsStore (Ok tt); ObsLoad (LOk sA); ObsStore (Ok tt); ObsLoad (LOk sB)].
 Proof. vm_compute. split; reflexivity. Qed.
+Print Assumptions C12_cache_needs_invalidation.
